@@ -149,6 +149,28 @@ CHECKS["C20"] = dict(
               "replay with real ParticleArrays",
     design="2/C20")
 
+CHECKS["C12"] = dict(
+    level="other",
+    text="For the 16 shipped Scheme classes that provide setup_properties, "
+         "the real configure_solver / setup_properties / get_equations run "
+         "with every boolean option as a z3 Bool and nu as a symbolic real "
+         "(enumerated string options are enumerated; dims 2,3 quick / 1,2,3 "
+         "thorough; with and without a solid array; clean on/off): the "
+         "solver enumerates and closes the option space. On each path's "
+         "model the completeness claim (every name the generated set-up "
+         "code dereferences, explicitly or through precomputed symbols, and "
+         "every stepper argument exists on its array) and code generation "
+         "(SPHCompiler._get_code) are evaluated.",
+    note="the claim per path is a concrete set inclusion evaluated on the "
+         "path's model (one path = one class of option combinations with "
+         "identical control flow); C compilation and the 'short run stays "
+         "finite' clause are outside; SPHEvaluator is a no-op inside "
+         "setup_properties",
+    technique="symbolic execution of the scheme methods with options as "
+              "SMT variables (solver-pruned path enumeration of the option "
+              "space), replay with concrete options",
+    design="2/C12")
+
 NOT_APPLICABLE = {
     "C05": "whole-application runs of compiled OpenMP code compared across "
            "configurations up to summation order: no unit a solver can "
